@@ -97,6 +97,52 @@ theorem inv_step (s : St) (o : Op) (hw : wfOp o) (h : Inv s) : Inv (step s o).1 
                   have := (h1 a ha).2.2
                   rw [hp', ← hw]
                   omega
+  | saveCanceled pid avpHeight nb =>
+    simp only [wfOp] at hw
+    simp only [step]
+    split
+    · exact ⟨h1, h2, by simp⟩
+    · rename_i hlt
+      cases hc : s.cur with
+      | none => exact ⟨h1, h2, by simp [hc]⟩
+      | some p =>
+        simp only
+        split
+        · exact ⟨h1, h2, by simp⟩
+        · rename_i hp
+          have hp' : p.pid = pid := Decidable.of_not_not hp
+          have hweak : ∀ e, e ∈ s.log → e.newBlock = e.pid ∧ e.height = hOf e.pid ∧ e.height ≤ avpHeight := by
+            intro e he
+            obtain ⟨a, b, c⟩ := h1 e he
+            exact ⟨a, b, by omega⟩
+          split
+          · exact ⟨hweak, h2, by simp⟩
+          · split
+            · exact ⟨hweak, h2, by simp⟩
+            · split
+              · exact ⟨hweak, h2, by simp⟩
+              · rename_i hm
+                have hm' : p.manifest = some nb := Decidable.of_not_not hm
+                have hnb : nb = p.pid := by
+                  rcases h3 p hc with h | h
+                  · rw [h] at hm'; exact (Option.some.inj hm').symm
+                  · rw [h] at hm'; exact absurd hm' (by simp)
+                refine ⟨?_, ?_, by simp⟩
+                · intro e he
+                  simp only [List.mem_append, List.mem_singleton] at he
+                  rcases he with he | he
+                  · exact hweak e he
+                  · subst he
+                    exact ⟨hnb, rfl, by rw [hp', ← hw]; exact Nat.le_refl _⟩
+                · rw [List.pairwise_append]
+                  refine ⟨h2, by simp, ?_⟩
+                  intro a ha b hb
+                  simp only [List.mem_singleton] at hb
+                  subst hb
+                  simp only
+                  have := (h1 a ha).2.2
+                  rw [hp', ← hw]
+                  omega
 
 theorem inv_run (ops : List Op) (s : St) (hw : ∀ o, o ∈ ops → wfOp o) (h : Inv s) : Inv (run s ops) := by
   induction ops generalizing s with
@@ -123,19 +169,20 @@ theorem saved_below_previous (ops : List Op) (hw : ∀ o, o ∈ ops → wfOp o) 
     ∀ e, e ∈ (run init ops).log → e.height ≤ (run init ops).prev :=
   fun e he => ((inv_run ops init hw inv_init).1 e he).2.2
 
-/-- the log only grows by a successful save -/
-theorem log_grows_only_on_ok (s : St) (o : Op) : (step s o).2 ≠ .ok → (step s o).1.log = s.log := by
+/-- the log only grows inside a save call -/
+theorem log_grows_only_in_save (s : St) (o : Op) :
+    (step s o).1.log ≠ s.log → (∃ p a n, o = .save p a n) ∨ (∃ p a n, o = .saveCanceled p a n) := by
   cases o with
   | process pid => simp only [step]; cases s.cur <;> simp <;> split <;> simp
   | processUnknown => simp [step]
   | cancel => simp [step]
-  | save pid a nb =>
-    simp only [step]
-    split
-    · simp
-    · cases s.cur with
-      | none => simp
-      | some p => simp only; split <;> (try simp) ; split <;> (try simp); split <;> (try simp); split <;> simp
+  | save pid a nb => intro _; exact Or.inl ⟨pid, a, nb, rfl⟩
+  | saveCanceled pid a nb => intro _; exact Or.inr ⟨pid, a, nb, rfl⟩
+
+/-- a save that stored the block but was reported as cancelled still blocks its height -/
+theorem canceled_save_keeps_height :
+    (run init [.process 0, .saveCanceled 0 33 0, .process 1, .save 1 33 1]).log = [{ height := 33, pid := 0, newBlock := 0 }] := by
+  decide
 
 /-- non-vacuity: process, save under the agreed manifest, then the next height -/
 example : (run init [.process 0, .save 0 33 0, .process 2, .save 2 34 2]).log =
